@@ -191,10 +191,36 @@ pub struct Spec {
     pub wills: HashMap<String, Will>,
     /// Retained history per topic: (accepted index, Some(payload) | None = cleared | unspecified)
     pub retained: HashMap<String, Vec<(usize, RetainedVal)>>,
-    /// Shared groups: name -> member client ids (for C17 bookkeeping).
-    pub groups: HashMap<String, Vec<String>>,
+    /// Shared groups by name (C17 bookkeeping).
+    pub groups: HashMap<String, GroupModel>,
     /// Wills fired: (client id, accepted index)
     pub wills_fired: Vec<(String, usize)>,
+}
+
+#[derive(Clone, Debug)]
+pub struct Delivery {
+    pub conn: usize,
+    pub qos: u8,
+    pub acked: bool,
+}
+
+/// One life of a shared-subscription group: from the first member joining
+/// an empty/non-existent group until the last one leaves.
+#[derive(Clone, Debug, Default)]
+pub struct GroupModel {
+    pub flog: usize,
+    /// Position in the filter log when the group came into existence.
+    pub start: usize,
+    /// Member connection indexes (one entry per accepted subscribe).
+    pub members: Vec<usize>,
+    /// Deliveries through the group, by filter-log position.
+    pub delivered: HashMap<usize, Vec<Delivery>>,
+    /// The same group name was used with another filter: not judged.
+    pub mixed: bool,
+    /// Last position delivered to each member connection.
+    pub last_j: HashMap<usize, usize>,
+    /// A member left or disconnected during this life of the group.
+    pub member_left: bool,
 }
 
 #[derive(Clone, Debug, PartialEq, Eq)]
@@ -214,6 +240,48 @@ pub fn extract_group(path: &str) -> Option<(String, String)> {
 pub enum Effect {
     /// The broker must close this connection now (rule name).
     Close(usize, &'static str),
+}
+
+impl Spec {
+    /// Payloads the retained message of `topic` held at some moment from
+    /// `t0` (number of accepted publishes) until now; `None` in the list
+    /// means "no retained message" was a possible state; the flag says that
+    /// an unspecified state occurred in the window.
+    pub fn retained_window(&self, topic: &str, t0: usize) -> (Vec<Option<Vec<u8>>>, bool) {
+        let mut vals: Vec<Option<Vec<u8>>> = Vec::new();
+        let mut unspecified = false;
+        let hist = match self.retained.get(topic) {
+            Some(h) => h,
+            None => return (vec![None], false),
+        };
+        // state at t0: last entry with index < t0
+        let mut at_t0: Option<&RetainedVal> = None;
+        for (i, v) in hist.iter() {
+            if *i < t0 {
+                at_t0 = Some(v);
+            }
+        }
+        let mut push = |v: Option<&RetainedVal>, vals: &mut Vec<Option<Vec<u8>>>, unspecified: &mut bool| match v {
+            None | Some(RetainedVal::Cleared) => vals.push(None),
+            Some(RetainedVal::Set(p)) => vals.push(Some(p.clone())),
+            Some(RetainedVal::Unspecified) => *unspecified = true,
+        };
+        push(at_t0, &mut vals, &mut unspecified);
+        for (i, v) in hist.iter() {
+            if *i >= t0 {
+                push(Some(v), &mut vals, &mut unspecified);
+            }
+        }
+        (vals, unspecified)
+    }
+
+    /// Every payload ever set as retained for this topic.
+    pub fn retained_ever(&self, topic: &str, payload: &[u8]) -> bool {
+        self.retained
+            .get(topic)
+            .map(|h| h.iter().any(|(_, v)| matches!(v, RetainedVal::Set(p) if p == payload)))
+            .unwrap_or(false)
+    }
 }
 
 impl Sub {
@@ -355,10 +423,14 @@ impl Spec {
         if self.by_client.get(&client_id) == Some(&c) {
             self.by_client.remove(&client_id);
         }
-        for members in self.groups.values_mut() {
-            members.retain(|m| m != &client_id);
+        for g in self.groups.values_mut() {
+            let before = g.members.len();
+            g.members.retain(|m| *m != c);
+            if g.members.len() != before {
+                g.member_left = true;
+            }
         }
-        self.groups.retain(|_, m| !m.is_empty());
+        self.groups.retain(|_, g| !g.members.is_empty());
         if !clean {
             let mut session = std::mem::take(&mut self.conns[c].session);
             session.subs.retain(|s| !s.gone && s.end.is_none());
@@ -500,11 +572,15 @@ impl Spec {
                         let pos = self.flogs[flog].entries.len();
                         let t0 = self.accepted.len();
                         if let Some(g) = &group {
-                            let cid = self.conns[c].client_id.clone();
-                            let m = self.groups.entry(g.clone()).or_default();
-                            // the broker's group membership is a list; a
-                            // repeated subscribe adds the member again
-                            m.push(cid);
+                            let gm = self.groups.entry(g.clone()).or_insert_with(|| GroupModel {
+                                flog,
+                                start: pos,
+                                ..Default::default()
+                            });
+                            if gm.flog != flog {
+                                gm.mixed = true;
+                            }
+                            gm.members.push(c);
                         }
                         let subs = &mut self.conns[c].session.subs;
                         if let Some(s) = subs
@@ -555,7 +631,6 @@ impl Spec {
                 }
                 SimPkt::Unsubscribe { pkid, filters } => {
                     for path in filters {
-                        let cid = self.conns[c].client_id.clone();
                         let mut found = false;
                         for s in self.conns[c].session.subs.iter_mut() {
                             if s.path == *path && s.end.is_none() && !s.gone {
@@ -572,10 +647,11 @@ impl Spec {
                         }
                         if found {
                             if let Some((g, _)) = extract_group(path) {
-                                if let Some(m) = self.groups.get_mut(&g) {
-                                    m.retain(|x| x != &cid);
+                                if let Some(gm) = self.groups.get_mut(&g) {
+                                    gm.members.retain(|x| *x != c);
+                                    gm.member_left = true;
                                 }
-                                self.groups.retain(|_, m| !m.is_empty());
+                                self.groups.retain(|_, g| !g.members.is_empty());
                             }
                         }
                     }
